@@ -85,16 +85,7 @@ Theorem toml_root_roundtrip t v out : has_type v t -> ser_toml_root t v = Ok out
 Proof.
   intros Hty H. unfold has_type in Hty.
   destruct t; try (apply (edit_root_roundtrip _ _ _ Hty); destruct v; exact H).
-  - (* a Datetime at the root: written as { FIELD = "text" }, which Datetime's visitor accepts *)
-    destruct v; try (apply (edit_root_roundtrip _ _ _ Hty); exact H).
-    simpl in H. injection H as <-. simpl in Hty. apply andb_true_iff in Hty as [Hr Hk].
-    rewrite (de_root_datetime k d Hr Hk). eexists; split; [reflexivity|constructor].
-  - (* a struct at the root: the same entries as ValueSerializer writes *)
-    destruct v; try (apply (edit_root_roundtrip _ _ _ Hty); exact H).
-    apply (roundtrip_value _ _ _ Hty). rewrite sv_struct.
-    rewrite ht_struct in Hty. apply andb_true_iff in Hty as [Hty _]. apply andb_true_iff in Hty as [Hpriv _].
-    apply negb_true_iff in Hpriv. rewrite (private_not_dt name Hpriv). exact H.
-  - (* an enum at the root *)
+  - (* an enum at the root (everything else goes to toml_edit's ValueSerializer, the struct's name included) *)
     destruct v as [| | | | | | | | | | | | | |i p]; try (apply (edit_root_roundtrip _ _ _ Hty); exact H).
     simpl in H.
     match type of H with pick ?f ?d vs i = _ => destruct (pick_cases f d vs i) as [([vn var] & Hn & E)|[_ E]]; rewrite E in H end;
@@ -118,11 +109,6 @@ Proof.
     right; left. rewrite E2. auto. }
   unfold has_type in Hty.
   destruct t; try (apply Hedit; destruct v; reflexivity).
-  - destruct v; try (apply Hedit; reflexivity). simpl in H. discriminate H.
-  - destruct v; try (apply Hedit; reflexivity).
-    left. apply errors_documented; [exact Hty|]. rewrite sv_struct.
-    rewrite ht_struct in Hty. apply andb_true_iff in Hty as [Hty _]. apply andb_true_iff in Hty as [Hpriv _].
-    apply negb_true_iff in Hpriv. rewrite (private_not_dt name Hpriv). exact H.
   - destruct v as [| | | | | | | | | | | | | |i p]; try (apply Hedit; reflexivity).
     pose proof Hty as Hty'. rewrite ht_enum in Hty'. apply andb_true_iff in Hty' as [_ Hp].
     simpl in H.
